@@ -7,7 +7,9 @@ Require Import Nib.Lib.Dec Nib.C10.Model Nib.C10.Spec Nib.C10.Proofs.
 Local Open Scope Z_scope.
 
 (** FULL STATEMENT.  For every staking situation with non-negative powers, every Votes store, whitelist,
-    stored rates, height and parameters in the overflow-free domain: the EndBlocker outcome satisfies P
+    stored rates, height and parameters in the domain [Spec.domain] = parameters accepted by Params.Validate,
+    bonded power fitting int64, rates being LegacyDec values (no further restriction since the fixes
+    48f939b / 662a06f / 66a0ce3): the EndBlocker outcome satisfies P
     (outside a period end nothing changes; at a period end it completes without panic, a pair gets a
     price-update event and a new store entry (pair, rate, height) iff it has quorum, the rate is a
     weighted median in the sense of [is_median], and every other stored rate is kept iff it is not
@@ -77,7 +79,7 @@ Print Assumptions C10_median_permutation_invariant.
     pairs and abstentions have no influence: deleting all of them leaves the outcome (store, events,
     panic or not) unchanged; two stores that agree on the relevant votes give the same outcome. *)
 Theorem C10_irrelevant_votes_no_influence :
-  forall p st h, wf st -> threshold_ok p (bonded_power st) = true ->
+  forall p st h, wf st -> domain p st h = true ->
   update true p (strip st) h = update true p st h.
 Proof. exact strip_no_influence. Qed.
 Print Assumptions C10_irrelevant_votes_no_influence.
@@ -88,7 +90,7 @@ Theorem C10_same_relevant_votes_same_outcome :
   bonded_tokens st2 = bonded_tokens st1 -> power_reduction st2 = power_reduction st1 ->
   whitelist st2 = whitelist st1 -> rates st2 = rates st1 ->
   votes (strip st2) = votes (strip st1) ->
-  threshold_ok p (bonded_power st1) = true ->
+  domain p st1 h = true -> domain p st2 h = true ->
   end_block true p st2 h = end_block true p st1 h.
 Proof. exact irrelevant_votes_no_influence. Qed.
 Print Assumptions C10_same_relevant_votes_same_outcome.
@@ -163,21 +165,31 @@ Theorem C10_abstain_influence_refuted_before_fix :
 Proof. exact abstain_influence_before_fix. Qed.
 Print Assumptions C10_abstain_influence_refuted_before_fix.
 
-(** Outside the domain the CURRENT code misbehaves (parameter values accepted by Params.Validate /
-    rates accepted by the Dec codec): uint64 wrap of created + ExpirationBlocks drops a fresh rate;
-    a median near the Dec limit and a huge VoteThreshold make EndBlock panic. *)
-Theorem C10_expiry_wraps_outside_domain :
-  exists p st h e, wf st /\ In e (rates st) /\ ~ expired_at p e h /\ ~ quorum p st (r_pair e) /\
-                   end_block true p st h = Done [] [].
-Proof. exact expiry_wraps_outside_domain. Qed.
-Print Assumptions C10_expiry_wraps_outside_domain.
+(** The three spots repaired after this check found them (variants selectable in [end_block_gen]):
+    before 48f939b an ExpirationBlocks near 2^64 wrapped the uint64 sum and a fresh rate was dropped (the
+    current code keeps it); before 66a0ce3 a median near the Dec limit made Tally panic (the current code
+    publishes it); a VoteThreshold far above 1 still overflows MulInt64, but only for parameter values that
+    Params.Validate rejects since 662a06f (at genesis and on every edit). *)
+Theorem C10_expiry_wrap_refuted_before_fix :
+  exists p st h e, wf st /\ domain p st h = true /\ In e (rates st) /\ ~ expired_at p e h /\ ~ quorum p st (r_pair e) /\
+                   end_block_gen true false true p st h = Done [] [] /\
+                   end_block true p st h = Done [e] [].
+Proof. exact expiry_wrap_before_fix. Qed.
+Print Assumptions C10_expiry_wrap_refuted_before_fix.
 
-Theorem C10_tally_panics_outside_domain :
-  exists p st h, wf st /\ quorum p st 0%nat /\ end_block true p st h = Panic.
-Proof. exact tally_panics_outside_domain. Qed.
-Print Assumptions C10_tally_panics_outside_domain.
+Theorem C10_tally_add_panics_before_fix :
+  exists p st h, wf st /\ domain p st h = true /\ quorum p st 0%nat /\
+                 end_block_gen true true false p st h = Panic /\
+                 end_block true p st h = Done [mkRate 0 DEC_LIMIT h] [(0%nat, DEC_LIMIT)].
+Proof. exact tally_add_panics_before_fix. Qed.
+Print Assumptions C10_tally_add_panics_before_fix.
 
-Theorem C10_threshold_panics_outside_domain :
-  exists p st h, wf st /\ end_block true p st h = Panic.
-Proof. exact threshold_panics_outside_domain. Qed.
-Print Assumptions C10_threshold_panics_outside_domain.
+Theorem C10_threshold_panics_only_for_rejected_params :
+  exists p st h, wf st /\ params_valid p = false /\ end_block true p st h = Panic.
+Proof. exact threshold_panics_only_for_rejected_params. Qed.
+Print Assumptions C10_threshold_panics_only_for_rejected_params.
+
+Theorem C10_variants_current :
+  forall fx p st h, end_block_gen fx true true p st h = end_block fx p st h.
+Proof. exact end_block_gen_current. Qed.
+Print Assumptions C10_variants_current.
